@@ -166,12 +166,15 @@ class MemPerDocReader(base.PerDocumentReader):
                    in self._segment._lengths.values())
 
     def min_field_length(self, fieldname):
-        return min(lens[fieldname] for lens in self._segment._lengths.values()
-                   if fieldname in lens)
+        # (0 when no document has the field, as in the other codecs)
+        lens = [lens[fieldname] for lens in self._segment._lengths.values()
+                if fieldname in lens]
+        return min(lens) if lens else 0
 
     def max_field_length(self, fieldname):
-        return max(lens[fieldname] for lens in self._segment._lengths.values()
-                   if fieldname in lens)
+        lens = [lens[fieldname] for lens in self._segment._lengths.values()
+                if fieldname in lens]
+        return max(lens) if lens else 0
 
     def has_vector(self, docnum, fieldname):
         return (docnum in self._segment._vectors
